@@ -117,6 +117,16 @@ fn parallel_fit_case<T: Sc>(rng: &mut Rng, case: u64, out: &mut CaseOut) {
 }
 
 fn fit_checks<T: Sc>(rng: &mut Rng, case: u64, out: &mut CaseOut, stream: &str, spec: ProblemSpec) {
+    let mut spec = spec;
+    if spec.eps.is_none() && rng.chance(0.15) {
+        // a user threshold that is not negligible against the singular values but truncates nothing:
+        // 1/16 .. 1/64 of the smallest singular value at the start
+        let v = crate::oracle::View::new::<T>(&spec, &spec.alpha0);
+        if v.finite() && v.sigma_min() > 1e3 * T::EPS * v.sigma1() {
+            spec.eps = Some(crate::sc::rt::<T>(v.sigma_min() / rng.range(16.0, 64.0)) * rng.sign());
+            out.count("fits_with_a_user_threshold_below_all_singular_values");
+        }
+    }
     let cfg = LmCfg::random(rng);
     let lm = cfg.make::<T>();
     let np = spec.model.np();
